@@ -126,7 +126,7 @@ macro_rules! conc_mod {
                 for calls in threads {
                     let ns = nodes.clone();
                     let calls = calls.clone();
-                    bodies.push(Box::new(move || calls.iter().map(|c| do_call(&ns, c)).collect::<Vec<_>>().join(",")));
+                    bodies.push(Box::new(move || calls.iter().map(|c| do_call(&ns, c)).collect::<Vec<_>>().join("+")));
                 }
                 let out = sched::run_once(forced, forced_ids, bodies);
                 let dump = std::panic::catch_unwind(std::panic::AssertUnwindSafe(|| crate::exec::$m::dump(st))).unwrap_or_else(|_| "POISONED".into());
@@ -144,7 +144,7 @@ macro_rules! conc_mod {
                     .iter()
                     .zip(threads)
                     .map(|(r, calls)| {
-                        let parts: Vec<&str> = if r.is_empty() { vec![] } else { r.split(',').collect() };
+                        let parts: Vec<&str> = if r.is_empty() { vec![] } else { r.split('+').collect() };
                         calls.iter().enumerate().filter(|(_, c)| c.is_mutator()).map(|(i, _)| parts.get(i).unwrap_or(&"?").to_string()).collect()
                     })
                     .collect();
